@@ -367,3 +367,20 @@ MUTANTS += [
                    "            .take_while(|&next| self.front.get(next) == Some(new))\n"
                    "            .count()\n"))]},
 ]
+
+# clear(): the back buffer may be reset by any SurfaceMut method shown (on its body) to store Default::default() in every slot
+_SURF_CLEAR = "        let shape = self.shape();\n        let data = self.data_mut();\n        for row in 0..shape.height {\n            for col in 0..shape.width {\n                data[shape.offset(Position::new(row, col))] = Default::default();\n            }\n        }\n"
+MUTANTS += [
+    {"id": "C01-benign-clear-back-surface-clear", "prop": "C01", "benign": True,
+     "edits": [("src/render.rs", "        self.back.fill(Cell::default());\n\n        Ok(())", "        debug_assert_eq!(self.marks.size(), self.back.size());\n        self.back.clear();\n\n        Ok(())")]},
+    {"id": "C01-benign-clear-back-default-local", "prop": "C01", "benign": True,
+     "edits": [("src/render.rs", "        self.back.fill(Cell::default());\n\n        Ok(())", "        let blank: Cell = Default::default();\n        self.back.fill(blank);\n\n        Ok(())")]},
+    {"id": "C01-clear-back-surface-clear-skips-first-row", "prop": "C01", "expect": "R1-CLEAR/render::TerminalRenderer::clear/back-reset",
+     "edits": [("src/render.rs", "        self.back.fill(Cell::default());\n\n        Ok(())", "        self.back.clear();\n\n        Ok(())"),
+               ("src/surface.rs", _SURF_CLEAR, _SURF_CLEAR.replace("for row in 0..shape.height", "for row in 1..shape.height"))]},
+    {"id": "C01-clear-back-surface-clear-not-default", "prop": "C01", "expect": "R1-CLEAR/render::TerminalRenderer::clear/back-reset",
+     "edits": [("src/render.rs", "        self.back.fill(Cell::default());\n\n        Ok(())", "        self.back.clear();\n\n        Ok(())"),
+               ("src/surface.rs", _SURF_CLEAR, "        let shape = self.shape();\n        let data = self.data_mut();\n        for row in 0..shape.height {\n            for col in 0..shape.width {\n                if row != col {\n                    data[shape.offset(Position::new(row, col))] = Default::default();\n                }\n            }\n        }\n")]},
+    {"id": "C01-clear-front-surface-clear-instead-of-back", "prop": "C01", "expect": "R1-CLEAR/render::TerminalRenderer::clear/",
+     "edits": [("src/render.rs", "        self.back.fill(Cell::default());\n\n        Ok(())", "        self.front.clear();\n\n        Ok(())")]},
+]
